@@ -910,3 +910,622 @@ Proof. vm_compute. first [exact I | repeat split; reflexivity]. Qed.
 
 End GenAgreeComparable_C03.
 (* ---- COMPARABLE-APPENDIX:END ---- *)
+
+(*BEGIN ComposePublic_C03*)
+(* ==== COMPOSED PUBLIC THEOREMS (DESIGN 8.1: the composition of the translators' links, proved) ==== *)
+(* Generated by tools/gen_compose_appendix.py; do not edit between the markers.
+   [public_slice C p] (Proofs/ComposePublicSem.v) is the value of the public member p of cubepart._Slice computed
+   by the CHAIN OF GENERATED TERMS: the wiring term of p (Gen/WiringSrc.v, x_wiring) over the evaluation ([aeval]) of
+   the generated `_assemble_matrix` term (Gen/AssembleSrc.v, x_assemble) over the evaluations ([meval] / [meval_sq] /
+   [beval]) of the generated block terms of the measure (Gen/MeasureSrc.v, Gen/BasesSrc.v) -- each in the environment
+   in which the blocks of the measures it mentions are again evaluations of generated terms -- on the context
+   [Cs ..]: the four first-order arrays Model/CubeCounts.v::slice_counts extracts from the flat payload of
+   `tabulate S` ([survey_payload]), any subtotals / flags, any pair of in-range signed display orders.
+   [need b P] = P when every generated term named in b is available ([None] => True, like the GenAgree lemmas);
+   Cxx_public_terms_available: on this tree they all are.  The proofs use the GenAgree lemmas of the links as they
+   are (never unfolding a generated term) and Proofs/Compose*.v / Merge*.v for the last step to the respondents.
+   A change of MEANING of any generated term of a chain breaks the composed theorem of every member above it. *)
+From Coq Require String.
+From CC Require Spec.Merge Proofs.MergeSurvey Proofs.ComposePublicSem Proofs.ComposePublicLinks Proofs.ComposePublicChain
+     Proofs.ComposePublicSlice Proofs.ComposePublicCells Proofs.ComposePublicC03 Proofs.ComposePublicStrand.
+Section ComposePublic_C03.   (* scopes and imports below end with the section *)
+Import Coq.Strings.String Coq.ZArith.ZArith CC.Spec.Merge CC.Proofs.MergeSurvey CC.Proofs.ComposePublicSem
+       CC.Proofs.ComposePublicLinks CC.Proofs.ComposePublicChain CC.Proofs.ComposePublicSlice CC.Proofs.ComposePublicCells
+       CC.Proofs.ComposePublicC03 CC.Proofs.ComposePublicStrand.
+Import Coq.Lists.List.ListNotations.
+Local Close Scope Q_scope.
+Local Open Scope string_scope.
+Local Open Scope nat_scope.
+
+(* the vocabulary of the statements, spelled out *)
+Theorem C03_public_vocabulary :
+  (forall S tv vr kr mr vc kc mc k rsubs csubs ro co so,
+     survey_display S tv vr kr mr vc kc mc k rsubs csubs ro co so =
+     (t_ok tv /\ cat_or_mr kr /\ cat_or_mr kc /\ k < t_n tv /\ wf_survey S /\ 0 < nval mr /\ 0 < nval mc /\
+      slice_counts (cube_dims tv kr mr kc mc) (survey_payload tv vr kr mr vc kc mc S) k = Some so /\
+      (Forall (fun z => (- Z.of_nat (List.length rsubs) <= z < Z.of_nat (nval mr))%Z) ro /\
+       Forall (fun z => (- Z.of_nat (List.length csubs) <= z < Z.of_nat (nval mc))%Z) co))) /\
+  (forall P ro co spec,
+     cells_spec P ro co spec =
+     (pshape P = Some (List.length ro, List.length co) /\
+      forall i j, i < List.length ro -> j < List.length co -> (0 <= nth j co 0%Z)%Z -> spec i j (pcell P i j))) /\
+  (forall S tv vr kr mr vc kc mc k rsubs ro co i j wb x,
+     ratio_cell_spec S tv vr kr mr vc kc mc k rsubs ro co i j wb x =
+     (((0 <= nth i ro 0%Z)%Z ->
+         ratio_spec x (w_cell tv k vr kr mr vc kc mc S (Z.to_nat (nth i ro 0%Z)) (Z.to_nat (nth j co 0%Z)))
+                      (wb tv k vr kr mr vc kc mc S (Z.to_nat (nth i ro 0%Z)) (Z.to_nat (nth j co 0%Z)))) /\
+      ((nth i ro 0%Z < 0)%Z -> kr = KCat -> merge_row_ok S tv vr vc mr (row_subtotal rsubs ro i) ->
+         ratio_spec x (w_cell tv k vr KCat (merged_flags mr) vc kc mc
+                              (merged_rows_survey S vr mr (row_subtotal rsubs ro i)) (nval mr) (Z.to_nat (nth j co 0%Z)))
+                      (wb tv k vr KCat (merged_flags mr) vc kc mc
+                          (merged_rows_survey S vr mr (row_subtotal rsubs ro i)) (nval mr) (Z.to_nat (nth j co 0%Z)))))) /\
+  (forall x c b,
+     ratio_spec x c b =
+     match x with
+     | NaN => (b == 0)%Q
+     | Fin p => ~ (b == 0)%Q /\ (p == c / b)%Q /\ (0 <= p)%Q /\ (p <= 1)%Q
+     | Inf _ => False
+     end) /\
+  (forall S tv vr vc mr s,
+     merge_row_ok S tv vr vc mr s =
+     (vc <> vr /\ tv_other tv vr /\ fresh_for vr mr S /\
+      s_sub s = [] /\ Forall (fun a => a < n_valid mr) (s_add s) /\ NoDup (s_add s))) /\
+  (forall rsubs ro i,
+     row_subtotal rsubs ro i = nth (Z.to_nat (nth i ro 0%Z + Z.of_nat (List.length rsubs))) rsubs nosub).
+Proof. exact (conj (fun _ _ _ _ _ _ _ _ _ _ _ _ _ _ => eq_refl) (conj (fun _ _ _ _ => eq_refl)
+       (conj (fun _ _ _ _ _ _ _ _ _ _ _ _ _ _ _ _ => eq_refl) (conj (fun _ _ _ => eq_refl)
+       (conj (fun _ _ _ _ _ _ => eq_refl) (fun _ _ _ => eq_refl)))))). Qed.
+Print Assumptions C03_public_vocabulary.
+
+(* the vocabulary of the statement ([survey_display], [cells_spec], [merge_row_ok], [row_subtotal]: see
+   C03_public_vocabulary in Props/C03.v) *)
+Theorem C03_public_count_vocabulary :
+  forall S tv vr kr mr vc kc mc k rsubs ro co i j x,
+     count_cell_spec S tv vr kr mr vc kc mc k rsubs ro co i j x =
+     (((0 <= nth i ro 0%Z)%Z ->
+         x =x= Fin (w_cell tv k vr kr mr vc kc mc S (Z.to_nat (nth i ro 0%Z)) (Z.to_nat (nth j co 0%Z)))) /\
+      ((nth i ro 0%Z < 0)%Z -> kr = KCat -> merge_row_ok S tv vr vc mr (row_subtotal rsubs ro i) ->
+         x =x= Fin (w_cell tv k vr KCat (merged_flags mr) vc kc mc
+                           (merged_rows_survey S vr mr (row_subtotal rsubs ro i)) (nval mr) (Z.to_nat (nth j co 0%Z))))).
+Proof. exact (fun _ _ _ _ _ _ _ _ _ _ _ _ _ _ _ => eq_refl). Qed.
+Print Assumptions C03_public_count_vocabulary.
+
+(* _Slice.counts: display cell (i, j), base column c = co[j]:
+     base row r = ro[i]:     the weighted number of respondents in row element r and column element c
+     subtotal row ro[i] < 0: the weighted number of respondents in the merged category and column element c *)
+Theorem C03_public_Slice_counts :
+  need terms_public_counts
+  (forall S tv vr kr mr vc kc mc k rsubs csubs dn rd cd flag ro co so,
+     survey_display S tv vr kr mr vc kc mc k rsubs csubs ro co so ->
+     cells_spec (public_slice (Cs mr mc rsubs csubs dn rd cd flag ro co so) "counts") ro co
+       (fun i j => count_cell_spec S tv vr kr mr vc kc mc k rsubs ro co i j)).
+Proof. exact compose_public_Slice_counts. Qed.
+Print Assumptions C03_public_Slice_counts.
+
+(* EXAMPLE: the survey, subtotal and display of the C03_public_* examples *)
+Example C03_public_Slice_counts_example :
+  let S := [ mkResp [ACat 0; AMr [Sel; Oth]; ACat 0] (3 # 2);
+             mkResp [ACat 2; AMr [Sel; Mis]; ACat 1] 2;
+             mkResp [ACat 1; AMr [Sel; Sel]; ACat 0] 5;
+             mkResp [ACat 2; AMr [Oth; Sel]; ACat 1] (1 # 4);
+             mkResp [ACat 0; AMr [Oth; Oth]; ACat 2] 1 ] in
+  let mr := [false; true; false; false] in
+  let mc := [false; false] in
+  let rs := [mkSub [0; 2] []] in
+  let ro := [1; -1; 0]%Z in
+  let co := [1; 0]%Z in
+  let S' := merged_rows_survey S 0 mr (row_subtotal rs ro 1) in
+  match slice_counts (cube_dims None KCat mr KMr mc) (survey_payload None 0 KCat mr 1 KMr mc S) 0 with
+  | Some so =>
+      let P := public_slice (Cs mr mc rs [] false false false (fun _ => false) ro co so) "counts" in
+      survey_display S None 0 KCat mr 1 KMr mc 0 rs [] ro co so /\
+      merge_row_ok S None 0 1 mr (row_subtotal rs ro 1) /\
+      cells_spec P ro co (fun i j => count_cell_spec S None 0 KCat mr 1 KMr mc 0 rs ro co i j) /\
+      pred P = PMat 3 2 [[Fin (1 # 4); Fin 2]; [Fin 0; Fin (3 # 2)]; [Fin 0; Fin (3 # 2)]] /\
+      (w_cell None 0 0 KCat mr 1 KMr mc S 1 0 == 2)%Q /\
+      (w_cell None 0 0 KCat (merged_flags mr) 1 KMr mc S' 3 0 == 3 # 2)%Q
+  | None => False
+  end.
+Proof.
+  cbv zeta.
+  destruct (slice_counts (cube_dims None KCat [false; true; false; false] KMr [false; false])
+              (survey_payload None 0 KCat [false; true; false; false] 1 KMr [false; false] _) 0) as [so|] eqn:E;
+    [|vm_compute in E; discriminate].
+  assert (D : survey_display
+                [ mkResp [ACat 0; AMr [Sel; Oth]; ACat 0] (3 # 2); mkResp [ACat 2; AMr [Sel; Mis]; ACat 1] 2;
+                  mkResp [ACat 1; AMr [Sel; Sel]; ACat 0] 5; mkResp [ACat 2; AMr [Oth; Sel]; ACat 1] (1 # 4);
+                  mkResp [ACat 0; AMr [Oth; Oth]; ACat 2] 1 ]
+                None 0 KCat [false; true; false; false] 1 KMr [false; false] 0 [mkSub [0; 2] []] []
+                [1; -1; 0]%Z [1; 0]%Z so).
+  { split; [exact I|]. split; [left; reflexivity|]. split; [right; reflexivity|]. split; [vm_compute; lia|].
+    split; [repeat constructor; discriminate|]. split; [vm_compute; lia|]. split; [vm_compute; lia|].
+    split; [exact E|]. split; repeat constructor; vm_compute; discriminate. }
+  split; [exact D|].
+  split.
+  { split; [discriminate|]. split; [exact I|]. split.
+    - intros r Hr. repeat (destruct Hr as [<-|Hr]; [vm_compute; discriminate|]). destruct Hr.
+    - split; [reflexivity|]. split; [repeat constructor; vm_compute; lia|].
+      repeat constructor; simpl; intuition discriminate. }
+  split; [exact (need_elim _ _ eq_refl C03_public_Slice_counts _ _ _ _ _ _ _ _ _ _ _ _ _ _ _ _ _ _ D)|].
+  vm_compute in E. injection E as <-.
+  split; [vm_compute; reflexivity|]. split; vm_compute; reflexivity.
+Qed.
+
+(* _Slice.row_proportions: display cell (i, j), base column c = co[j]:
+     base row r = ro[i]:     w(row r and column c) / w(row r, eligible for column c); NaN iff that base is 0, else in [0, 1]
+     subtotal row ro[i] < 0: the same for the merged category (rows categorical, no subtrahends) *)
+Theorem C03_public_Slice_row_proportions :
+  need terms_public_row_proportions
+  (forall S tv vr kr mr vc kc mc k rsubs csubs dn rd cd flag ro co so,
+     survey_display S tv vr kr mr vc kc mc k rsubs csubs ro co so ->
+     cells_spec (public_slice (Cs mr mc rsubs csubs dn rd cd flag ro co so) "row_proportions") ro co
+       (fun i j => ratio_cell_spec S tv vr kr mr vc kc mc k rsubs ro co i j w_rowbase)).
+Proof. exact compose_public_Slice_row_proportions. Qed.
+Print Assumptions C03_public_Slice_row_proportions.
+
+(* _Slice.column_proportions: w(row r and column c) / w(eligible for row r, column c) *)
+Theorem C03_public_Slice_column_proportions :
+  need terms_public_column_proportions
+  (forall S tv vr kr mr vc kc mc k rsubs csubs dn rd cd flag ro co so,
+     survey_display S tv vr kr mr vc kc mc k rsubs csubs ro co so ->
+     cells_spec (public_slice (Cs mr mc rsubs csubs dn rd cd flag ro co so) "column_proportions") ro co
+       (fun i j => ratio_cell_spec S tv vr kr mr vc kc mc k rsubs ro co i j w_colbase)).
+Proof. exact compose_public_Slice_column_proportions. Qed.
+Print Assumptions C03_public_Slice_column_proportions.
+
+(* _Slice.table_proportions: w(row r and column c) / w(eligible for both) *)
+Theorem C03_public_Slice_table_proportions :
+  need terms_public_table_proportions
+  (forall S tv vr kr mr vc kc mc k rsubs csubs dn rd cd flag ro co so,
+     survey_display S tv vr kr mr vc kc mc k rsubs csubs ro co so ->
+     cells_spec (public_slice (Cs mr mc rsubs csubs dn rd cd flag ro co so) "table_proportions") ro co
+       (fun i j => ratio_cell_spec S tv vr kr mr vc kc mc k rsubs ro co i j w_tabbase)).
+Proof. exact compose_public_Slice_table_proportions. Qed.
+Print Assumptions C03_public_Slice_table_proportions.
+
+(* the percentages: `self.<x>_proportions * 100` -- every cell is 100 times a number x with the proportion's spec *)
+Theorem C03_public_Slice_row_percentages :
+  need terms_public_row_percentages
+  (forall S tv vr kr mr vc kc mc k rsubs csubs dn rd cd flag ro co so,
+     survey_display S tv vr kr mr vc kc mc k rsubs csubs ro co so ->
+     cells_spec (public_slice (Cs mr mc rsubs csubs dn rd cd flag ro co so) "row_percentages") ro co
+       (fun i j y => exists x, y = xmul x (Fin 100%Q) /\
+                               ratio_cell_spec S tv vr kr mr vc kc mc k rsubs ro co i j w_rowbase x)).
+Proof. exact compose_public_Slice_row_percentages. Qed.
+Print Assumptions C03_public_Slice_row_percentages.
+
+Theorem C03_public_Slice_column_percentages :
+  need terms_public_column_percentages
+  (forall S tv vr kr mr vc kc mc k rsubs csubs dn rd cd flag ro co so,
+     survey_display S tv vr kr mr vc kc mc k rsubs csubs ro co so ->
+     cells_spec (public_slice (Cs mr mc rsubs csubs dn rd cd flag ro co so) "column_percentages") ro co
+       (fun i j y => exists x, y = xmul x (Fin 100%Q) /\
+                               ratio_cell_spec S tv vr kr mr vc kc mc k rsubs ro co i j w_colbase x)).
+Proof. exact compose_public_Slice_column_percentages. Qed.
+Print Assumptions C03_public_Slice_column_percentages.
+
+Theorem C03_public_Slice_table_percentages :
+  need terms_public_table_percentages
+  (forall S tv vr kr mr vc kc mc k rsubs csubs dn rd cd flag ro co so,
+     survey_display S tv vr kr mr vc kc mc k rsubs csubs ro co so ->
+     cells_spec (public_slice (Cs mr mc rsubs csubs dn rd cd flag ro co so) "table_percentages") ro co
+       (fun i j y => exists x, y = xmul x (Fin 100%Q) /\
+                               ratio_cell_spec S tv vr kr mr vc kc mc k rsubs ro co i j w_tabbase x)).
+Proof. exact compose_public_Slice_table_percentages. Qed.
+Print Assumptions C03_public_Slice_table_percentages.
+
+(* NON-VACUITY of the guards: every generated term the chains need is available on this tree
+   (a [None] would also be reported by core.unavailable_obligations) *)
+Theorem C03_public_terms_available :
+  terms_public_counts = true /\ terms_public_row_proportions = true /\ terms_public_column_proportions = true /\
+  terms_public_table_proportions = true /\ terms_public_row_percentages = true /\
+  terms_public_column_percentages = true /\ terms_public_table_percentages = true.
+Proof. exact (conj eq_refl (conj eq_refl (conj eq_refl (conj eq_refl (conj eq_refl (conj eq_refl eq_refl)))))). Qed.
+Print Assumptions C03_public_terms_available.
+
+(* EXAMPLES.  The survey of C03_survey_example (5 respondents, rational weights; rows = variable 0, categorical with a
+   MISSING category at payload position 1; columns = variable 1, multiple response with per-item missingness), one
+   subtotal that merges the valid row elements 0 and 2, display rows [element 1; the subtotal; element 0] (element 2 hidden),
+   display columns reversed.  For each member: the hypotheses hold, the theorem applies, the value the chain of generated
+   terms computes, and the respondent-level quotients of display cells (0, 1) and (1, 1). *)
+Example C03_public_row_proportions_example :
+  let S := [ mkResp [ACat 0; AMr [Sel; Oth]; ACat 0] (3 # 2);
+             mkResp [ACat 2; AMr [Sel; Mis]; ACat 1] 2;
+             mkResp [ACat 1; AMr [Sel; Sel]; ACat 0] 5;
+             mkResp [ACat 2; AMr [Oth; Sel]; ACat 1] (1 # 4);
+             mkResp [ACat 0; AMr [Oth; Oth]; ACat 2] 1 ] in
+  let mr := [false; true; false; false] in
+  let mc := [false; false] in
+  let rs := [mkSub [0; 2] []] in
+  let ro := [1; -1; 0]%Z in
+  let co := [1; 0]%Z in
+  let S' := merged_rows_survey S 0 mr (row_subtotal rs ro 1) in
+  match slice_counts (cube_dims None KCat mr KMr mc) (survey_payload None 0 KCat mr 1 KMr mc S) 0 with
+  | Some so =>
+      let P := public_slice (Cs mr mc rs [] false false false (fun _ => false) ro co so) "row_proportions" in
+      survey_display S None 0 KCat mr 1 KMr mc 0 rs [] ro co so /\
+      merge_row_ok S None 0 1 mr (row_subtotal rs ro 1) /\
+      cells_spec P ro co (fun i j => ratio_cell_spec S None 0 KCat mr 1 KMr mc 0 rs ro co i j w_rowbase) /\
+      pred P = PMat 3 2 [[Fin 1; Fin (8 # 9)]; [Fin 0; Fin (3 # 5)]; [Fin 0; Fin (3 # 5)]] /\
+      (w_cell None 0 0 KCat mr 1 KMr mc S 1 0 / w_rowbase None 0 0 KCat mr 1 KMr mc S 1 0 == 8 # 9)%Q /\
+      (w_cell None 0 0 KCat (merged_flags mr) 1 KMr mc S' 3 0 / w_rowbase None 0 0 KCat (merged_flags mr) 1 KMr mc S' 3 0 == 3 # 5)%Q
+  | None => False
+  end.
+Proof.
+  cbv zeta.
+  destruct (slice_counts (cube_dims None KCat [false; true; false; false] KMr [false; false])
+              (survey_payload None 0 KCat [false; true; false; false] 1 KMr [false; false] _) 0) as [so|] eqn:E;
+    [|vm_compute in E; discriminate].
+  assert (D : survey_display
+                [ mkResp [ACat 0; AMr [Sel; Oth]; ACat 0] (3 # 2); mkResp [ACat 2; AMr [Sel; Mis]; ACat 1] 2;
+                  mkResp [ACat 1; AMr [Sel; Sel]; ACat 0] 5; mkResp [ACat 2; AMr [Oth; Sel]; ACat 1] (1 # 4);
+                  mkResp [ACat 0; AMr [Oth; Oth]; ACat 2] 1 ]
+                None 0 KCat [false; true; false; false] 1 KMr [false; false] 0 [mkSub [0; 2] []] []
+                [1; -1; 0]%Z [1; 0]%Z so).
+  { split; [exact I|]. split; [left; reflexivity|]. split; [right; reflexivity|]. split; [vm_compute; lia|].
+    split; [repeat constructor; discriminate|]. split; [vm_compute; lia|]. split; [vm_compute; lia|].
+    split; [exact E|]. split; repeat constructor; vm_compute; discriminate. }
+  split; [exact D|].
+  split.
+  { split; [discriminate|]. split; [exact I|]. split.
+    - intros r Hr. repeat (destruct Hr as [<-|Hr]; [vm_compute; discriminate|]). destruct Hr.
+    - split; [reflexivity|]. split; [repeat constructor; vm_compute; lia|].
+      repeat constructor; simpl; intuition discriminate. }
+  split; [exact (need_elim _ _ eq_refl C03_public_Slice_row_proportions _ _ _ _ _ _ _ _ _ _ _ _ _ _ _ _ _ _ D)|].
+  vm_compute in E. injection E as <-.
+  split; [vm_compute; reflexivity|]. split; vm_compute; reflexivity.
+Qed.
+
+Example C03_public_column_proportions_example :
+  let S := [ mkResp [ACat 0; AMr [Sel; Oth]; ACat 0] (3 # 2);
+             mkResp [ACat 2; AMr [Sel; Mis]; ACat 1] 2;
+             mkResp [ACat 1; AMr [Sel; Sel]; ACat 0] 5;
+             mkResp [ACat 2; AMr [Oth; Sel]; ACat 1] (1 # 4);
+             mkResp [ACat 0; AMr [Oth; Oth]; ACat 2] 1 ] in
+  let mr := [false; true; false; false] in
+  let mc := [false; false] in
+  let rs := [mkSub [0; 2] []] in
+  let ro := [1; -1; 0]%Z in
+  let co := [1; 0]%Z in
+  let S' := merged_rows_survey S 0 mr (row_subtotal rs ro 1) in
+  match slice_counts (cube_dims None KCat mr KMr mc) (survey_payload None 0 KCat mr 1 KMr mc S) 0 with
+  | Some so =>
+      let P := public_slice (Cs mr mc rs [] false false false (fun _ => false) ro co so) "column_proportions" in
+      survey_display S None 0 KCat mr 1 KMr mc 0 rs [] ro co so /\
+      merge_row_ok S None 0 1 mr (row_subtotal rs ro 1) /\
+      cells_spec P ro co (fun i j => ratio_cell_spec S None 0 KCat mr 1 KMr mc 0 rs ro co i j w_colbase) /\
+      pred P = PMat 3 2 [[Fin 1; Fin (4 # 7)]; [Fin 0; Fin (3 # 7)]; [Fin 0; Fin (3 # 7)]] /\
+      (w_cell None 0 0 KCat mr 1 KMr mc S 1 0 / w_colbase None 0 0 KCat mr 1 KMr mc S 1 0 == 4 # 7)%Q /\
+      (w_cell None 0 0 KCat (merged_flags mr) 1 KMr mc S' 3 0 / w_colbase None 0 0 KCat (merged_flags mr) 1 KMr mc S' 3 0 == 3 # 7)%Q
+  | None => False
+  end.
+Proof.
+  cbv zeta.
+  destruct (slice_counts (cube_dims None KCat [false; true; false; false] KMr [false; false])
+              (survey_payload None 0 KCat [false; true; false; false] 1 KMr [false; false] _) 0) as [so|] eqn:E;
+    [|vm_compute in E; discriminate].
+  assert (D : survey_display
+                [ mkResp [ACat 0; AMr [Sel; Oth]; ACat 0] (3 # 2); mkResp [ACat 2; AMr [Sel; Mis]; ACat 1] 2;
+                  mkResp [ACat 1; AMr [Sel; Sel]; ACat 0] 5; mkResp [ACat 2; AMr [Oth; Sel]; ACat 1] (1 # 4);
+                  mkResp [ACat 0; AMr [Oth; Oth]; ACat 2] 1 ]
+                None 0 KCat [false; true; false; false] 1 KMr [false; false] 0 [mkSub [0; 2] []] []
+                [1; -1; 0]%Z [1; 0]%Z so).
+  { split; [exact I|]. split; [left; reflexivity|]. split; [right; reflexivity|]. split; [vm_compute; lia|].
+    split; [repeat constructor; discriminate|]. split; [vm_compute; lia|]. split; [vm_compute; lia|].
+    split; [exact E|]. split; repeat constructor; vm_compute; discriminate. }
+  split; [exact D|].
+  split.
+  { split; [discriminate|]. split; [exact I|]. split.
+    - intros r Hr. repeat (destruct Hr as [<-|Hr]; [vm_compute; discriminate|]). destruct Hr.
+    - split; [reflexivity|]. split; [repeat constructor; vm_compute; lia|].
+      repeat constructor; simpl; intuition discriminate. }
+  split; [exact (need_elim _ _ eq_refl C03_public_Slice_column_proportions _ _ _ _ _ _ _ _ _ _ _ _ _ _ _ _ _ _ D)|].
+  vm_compute in E. injection E as <-.
+  split; [vm_compute; reflexivity|]. split; vm_compute; reflexivity.
+Qed.
+
+Example C03_public_table_proportions_example :
+  let S := [ mkResp [ACat 0; AMr [Sel; Oth]; ACat 0] (3 # 2);
+             mkResp [ACat 2; AMr [Sel; Mis]; ACat 1] 2;
+             mkResp [ACat 1; AMr [Sel; Sel]; ACat 0] 5;
+             mkResp [ACat 2; AMr [Oth; Sel]; ACat 1] (1 # 4);
+             mkResp [ACat 0; AMr [Oth; Oth]; ACat 2] 1 ] in
+  let mr := [false; true; false; false] in
+  let mc := [false; false] in
+  let rs := [mkSub [0; 2] []] in
+  let ro := [1; -1; 0]%Z in
+  let co := [1; 0]%Z in
+  let S' := merged_rows_survey S 0 mr (row_subtotal rs ro 1) in
+  match slice_counts (cube_dims None KCat mr KMr mc) (survey_payload None 0 KCat mr 1 KMr mc S) 0 with
+  | Some so =>
+      let P := public_slice (Cs mr mc rs [] false false false (fun _ => false) ro co so) "table_proportions" in
+      survey_display S None 0 KCat mr 1 KMr mc 0 rs [] ro co so /\
+      merge_row_ok S None 0 1 mr (row_subtotal rs ro 1) /\
+      cells_spec P ro co (fun i j => ratio_cell_spec S None 0 KCat mr 1 KMr mc 0 rs ro co i j w_tabbase) /\
+      pred P = PMat 3 2 [[Fin (1 # 11); Fin (8 # 19)]; [Fin 0; Fin (6 # 19)]; [Fin 0; Fin (6 # 19)]] /\
+      (w_cell None 0 0 KCat mr 1 KMr mc S 1 0 / w_tabbase None 0 0 KCat mr 1 KMr mc S 1 0 == 8 # 19)%Q /\
+      (w_cell None 0 0 KCat (merged_flags mr) 1 KMr mc S' 3 0 / w_tabbase None 0 0 KCat (merged_flags mr) 1 KMr mc S' 3 0 == 6 # 19)%Q
+  | None => False
+  end.
+Proof.
+  cbv zeta.
+  destruct (slice_counts (cube_dims None KCat [false; true; false; false] KMr [false; false])
+              (survey_payload None 0 KCat [false; true; false; false] 1 KMr [false; false] _) 0) as [so|] eqn:E;
+    [|vm_compute in E; discriminate].
+  assert (D : survey_display
+                [ mkResp [ACat 0; AMr [Sel; Oth]; ACat 0] (3 # 2); mkResp [ACat 2; AMr [Sel; Mis]; ACat 1] 2;
+                  mkResp [ACat 1; AMr [Sel; Sel]; ACat 0] 5; mkResp [ACat 2; AMr [Oth; Sel]; ACat 1] (1 # 4);
+                  mkResp [ACat 0; AMr [Oth; Oth]; ACat 2] 1 ]
+                None 0 KCat [false; true; false; false] 1 KMr [false; false] 0 [mkSub [0; 2] []] []
+                [1; -1; 0]%Z [1; 0]%Z so).
+  { split; [exact I|]. split; [left; reflexivity|]. split; [right; reflexivity|]. split; [vm_compute; lia|].
+    split; [repeat constructor; discriminate|]. split; [vm_compute; lia|]. split; [vm_compute; lia|].
+    split; [exact E|]. split; repeat constructor; vm_compute; discriminate. }
+  split; [exact D|].
+  split.
+  { split; [discriminate|]. split; [exact I|]. split.
+    - intros r Hr. repeat (destruct Hr as [<-|Hr]; [vm_compute; discriminate|]). destruct Hr.
+    - split; [reflexivity|]. split; [repeat constructor; vm_compute; lia|].
+      repeat constructor; simpl; intuition discriminate. }
+  split; [exact (need_elim _ _ eq_refl C03_public_Slice_table_proportions _ _ _ _ _ _ _ _ _ _ _ _ _ _ _ _ _ _ D)|].
+  vm_compute in E. injection E as <-.
+  split; [vm_compute; reflexivity|]. split; vm_compute; reflexivity.
+Qed.
+
+Example C03_public_row_percentages_example :
+  let S := [ mkResp [ACat 0; AMr [Sel; Oth]; ACat 0] (3 # 2);
+             mkResp [ACat 2; AMr [Sel; Mis]; ACat 1] 2;
+             mkResp [ACat 1; AMr [Sel; Sel]; ACat 0] 5;
+             mkResp [ACat 2; AMr [Oth; Sel]; ACat 1] (1 # 4);
+             mkResp [ACat 0; AMr [Oth; Oth]; ACat 2] 1 ] in
+  let mr := [false; true; false; false] in
+  let mc := [false; false] in
+  let rs := [mkSub [0; 2] []] in
+  let ro := [1; -1; 0]%Z in
+  let co := [1; 0]%Z in
+  let S' := merged_rows_survey S 0 mr (row_subtotal rs ro 1) in
+  match slice_counts (cube_dims None KCat mr KMr mc) (survey_payload None 0 KCat mr 1 KMr mc S) 0 with
+  | Some so =>
+      let P := public_slice (Cs mr mc rs [] false false false (fun _ => false) ro co so) "row_percentages" in
+      survey_display S None 0 KCat mr 1 KMr mc 0 rs [] ro co so /\
+      merge_row_ok S None 0 1 mr (row_subtotal rs ro 1) /\
+      cells_spec P ro co (fun i j y => exists x, y = xmul x (Fin 100%Q) /\ ratio_cell_spec S None 0 KCat mr 1 KMr mc 0 rs ro co i j w_rowbase x) /\
+      pred P = PMat 3 2 [[Fin 100; Fin (800 # 9)]; [Fin 0; Fin 60]; [Fin 0; Fin 60]] /\
+      (100 * (w_cell None 0 0 KCat mr 1 KMr mc S 1 0 / w_rowbase None 0 0 KCat mr 1 KMr mc S 1 0) == 800 # 9)%Q /\
+      (100 * (w_cell None 0 0 KCat (merged_flags mr) 1 KMr mc S' 3 0 / w_rowbase None 0 0 KCat (merged_flags mr) 1 KMr mc S' 3 0) == 60)%Q
+  | None => False
+  end.
+Proof.
+  cbv zeta.
+  destruct (slice_counts (cube_dims None KCat [false; true; false; false] KMr [false; false])
+              (survey_payload None 0 KCat [false; true; false; false] 1 KMr [false; false] _) 0) as [so|] eqn:E;
+    [|vm_compute in E; discriminate].
+  assert (D : survey_display
+                [ mkResp [ACat 0; AMr [Sel; Oth]; ACat 0] (3 # 2); mkResp [ACat 2; AMr [Sel; Mis]; ACat 1] 2;
+                  mkResp [ACat 1; AMr [Sel; Sel]; ACat 0] 5; mkResp [ACat 2; AMr [Oth; Sel]; ACat 1] (1 # 4);
+                  mkResp [ACat 0; AMr [Oth; Oth]; ACat 2] 1 ]
+                None 0 KCat [false; true; false; false] 1 KMr [false; false] 0 [mkSub [0; 2] []] []
+                [1; -1; 0]%Z [1; 0]%Z so).
+  { split; [exact I|]. split; [left; reflexivity|]. split; [right; reflexivity|]. split; [vm_compute; lia|].
+    split; [repeat constructor; discriminate|]. split; [vm_compute; lia|]. split; [vm_compute; lia|].
+    split; [exact E|]. split; repeat constructor; vm_compute; discriminate. }
+  split; [exact D|].
+  split.
+  { split; [discriminate|]. split; [exact I|]. split.
+    - intros r Hr. repeat (destruct Hr as [<-|Hr]; [vm_compute; discriminate|]). destruct Hr.
+    - split; [reflexivity|]. split; [repeat constructor; vm_compute; lia|].
+      repeat constructor; simpl; intuition discriminate. }
+  split; [exact (need_elim _ _ eq_refl C03_public_Slice_row_percentages _ _ _ _ _ _ _ _ _ _ _ _ _ _ _ _ _ _ D)|].
+  vm_compute in E. injection E as <-.
+  split; [vm_compute; reflexivity|]. split; vm_compute; reflexivity.
+Qed.
+
+Example C03_public_column_percentages_example :
+  let S := [ mkResp [ACat 0; AMr [Sel; Oth]; ACat 0] (3 # 2);
+             mkResp [ACat 2; AMr [Sel; Mis]; ACat 1] 2;
+             mkResp [ACat 1; AMr [Sel; Sel]; ACat 0] 5;
+             mkResp [ACat 2; AMr [Oth; Sel]; ACat 1] (1 # 4);
+             mkResp [ACat 0; AMr [Oth; Oth]; ACat 2] 1 ] in
+  let mr := [false; true; false; false] in
+  let mc := [false; false] in
+  let rs := [mkSub [0; 2] []] in
+  let ro := [1; -1; 0]%Z in
+  let co := [1; 0]%Z in
+  let S' := merged_rows_survey S 0 mr (row_subtotal rs ro 1) in
+  match slice_counts (cube_dims None KCat mr KMr mc) (survey_payload None 0 KCat mr 1 KMr mc S) 0 with
+  | Some so =>
+      let P := public_slice (Cs mr mc rs [] false false false (fun _ => false) ro co so) "column_percentages" in
+      survey_display S None 0 KCat mr 1 KMr mc 0 rs [] ro co so /\
+      merge_row_ok S None 0 1 mr (row_subtotal rs ro 1) /\
+      cells_spec P ro co (fun i j y => exists x, y = xmul x (Fin 100%Q) /\ ratio_cell_spec S None 0 KCat mr 1 KMr mc 0 rs ro co i j w_colbase x) /\
+      pred P = PMat 3 2 [[Fin 100; Fin (400 # 7)]; [Fin 0; Fin (300 # 7)]; [Fin 0; Fin (300 # 7)]] /\
+      (100 * (w_cell None 0 0 KCat mr 1 KMr mc S 1 0 / w_colbase None 0 0 KCat mr 1 KMr mc S 1 0) == 400 # 7)%Q /\
+      (100 * (w_cell None 0 0 KCat (merged_flags mr) 1 KMr mc S' 3 0 / w_colbase None 0 0 KCat (merged_flags mr) 1 KMr mc S' 3 0) == 300 # 7)%Q
+  | None => False
+  end.
+Proof.
+  cbv zeta.
+  destruct (slice_counts (cube_dims None KCat [false; true; false; false] KMr [false; false])
+              (survey_payload None 0 KCat [false; true; false; false] 1 KMr [false; false] _) 0) as [so|] eqn:E;
+    [|vm_compute in E; discriminate].
+  assert (D : survey_display
+                [ mkResp [ACat 0; AMr [Sel; Oth]; ACat 0] (3 # 2); mkResp [ACat 2; AMr [Sel; Mis]; ACat 1] 2;
+                  mkResp [ACat 1; AMr [Sel; Sel]; ACat 0] 5; mkResp [ACat 2; AMr [Oth; Sel]; ACat 1] (1 # 4);
+                  mkResp [ACat 0; AMr [Oth; Oth]; ACat 2] 1 ]
+                None 0 KCat [false; true; false; false] 1 KMr [false; false] 0 [mkSub [0; 2] []] []
+                [1; -1; 0]%Z [1; 0]%Z so).
+  { split; [exact I|]. split; [left; reflexivity|]. split; [right; reflexivity|]. split; [vm_compute; lia|].
+    split; [repeat constructor; discriminate|]. split; [vm_compute; lia|]. split; [vm_compute; lia|].
+    split; [exact E|]. split; repeat constructor; vm_compute; discriminate. }
+  split; [exact D|].
+  split.
+  { split; [discriminate|]. split; [exact I|]. split.
+    - intros r Hr. repeat (destruct Hr as [<-|Hr]; [vm_compute; discriminate|]). destruct Hr.
+    - split; [reflexivity|]. split; [repeat constructor; vm_compute; lia|].
+      repeat constructor; simpl; intuition discriminate. }
+  split; [exact (need_elim _ _ eq_refl C03_public_Slice_column_percentages _ _ _ _ _ _ _ _ _ _ _ _ _ _ _ _ _ _ D)|].
+  vm_compute in E. injection E as <-.
+  split; [vm_compute; reflexivity|]. split; vm_compute; reflexivity.
+Qed.
+
+Example C03_public_table_percentages_example :
+  let S := [ mkResp [ACat 0; AMr [Sel; Oth]; ACat 0] (3 # 2);
+             mkResp [ACat 2; AMr [Sel; Mis]; ACat 1] 2;
+             mkResp [ACat 1; AMr [Sel; Sel]; ACat 0] 5;
+             mkResp [ACat 2; AMr [Oth; Sel]; ACat 1] (1 # 4);
+             mkResp [ACat 0; AMr [Oth; Oth]; ACat 2] 1 ] in
+  let mr := [false; true; false; false] in
+  let mc := [false; false] in
+  let rs := [mkSub [0; 2] []] in
+  let ro := [1; -1; 0]%Z in
+  let co := [1; 0]%Z in
+  let S' := merged_rows_survey S 0 mr (row_subtotal rs ro 1) in
+  match slice_counts (cube_dims None KCat mr KMr mc) (survey_payload None 0 KCat mr 1 KMr mc S) 0 with
+  | Some so =>
+      let P := public_slice (Cs mr mc rs [] false false false (fun _ => false) ro co so) "table_percentages" in
+      survey_display S None 0 KCat mr 1 KMr mc 0 rs [] ro co so /\
+      merge_row_ok S None 0 1 mr (row_subtotal rs ro 1) /\
+      cells_spec P ro co (fun i j y => exists x, y = xmul x (Fin 100%Q) /\ ratio_cell_spec S None 0 KCat mr 1 KMr mc 0 rs ro co i j w_tabbase x) /\
+      pred P = PMat 3 2 [[Fin (100 # 11); Fin (800 # 19)]; [Fin 0; Fin (600 # 19)]; [Fin 0; Fin (600 # 19)]] /\
+      (100 * (w_cell None 0 0 KCat mr 1 KMr mc S 1 0 / w_tabbase None 0 0 KCat mr 1 KMr mc S 1 0) == 800 # 19)%Q /\
+      (100 * (w_cell None 0 0 KCat (merged_flags mr) 1 KMr mc S' 3 0 / w_tabbase None 0 0 KCat (merged_flags mr) 1 KMr mc S' 3 0) == 600 # 19)%Q
+  | None => False
+  end.
+Proof.
+  cbv zeta.
+  destruct (slice_counts (cube_dims None KCat [false; true; false; false] KMr [false; false])
+              (survey_payload None 0 KCat [false; true; false; false] 1 KMr [false; false] _) 0) as [so|] eqn:E;
+    [|vm_compute in E; discriminate].
+  assert (D : survey_display
+                [ mkResp [ACat 0; AMr [Sel; Oth]; ACat 0] (3 # 2); mkResp [ACat 2; AMr [Sel; Mis]; ACat 1] 2;
+                  mkResp [ACat 1; AMr [Sel; Sel]; ACat 0] 5; mkResp [ACat 2; AMr [Oth; Sel]; ACat 1] (1 # 4);
+                  mkResp [ACat 0; AMr [Oth; Oth]; ACat 2] 1 ]
+                None 0 KCat [false; true; false; false] 1 KMr [false; false] 0 [mkSub [0; 2] []] []
+                [1; -1; 0]%Z [1; 0]%Z so).
+  { split; [exact I|]. split; [left; reflexivity|]. split; [right; reflexivity|]. split; [vm_compute; lia|].
+    split; [repeat constructor; discriminate|]. split; [vm_compute; lia|]. split; [vm_compute; lia|].
+    split; [exact E|]. split; repeat constructor; vm_compute; discriminate. }
+  split; [exact D|].
+  split.
+  { split; [discriminate|]. split; [exact I|]. split.
+    - intros r Hr. repeat (destruct Hr as [<-|Hr]; [vm_compute; discriminate|]). destruct Hr.
+    - split; [reflexivity|]. split; [repeat constructor; vm_compute; lia|].
+      repeat constructor; simpl; intuition discriminate. }
+  split; [exact (need_elim _ _ eq_refl C03_public_Slice_table_percentages _ _ _ _ _ _ _ _ _ _ _ _ _ _ _ _ _ _ D)|].
+  vm_compute in E. injection E as <-.
+  split; [vm_compute; reflexivity|]. split; vm_compute; reflexivity.
+Qed.
+
+(* STRANDS.  [public_strand C p] (Proofs/ComposePublicStrand.v): the wiring term of _Strand.<p> over the evaluation of the
+   generated `_assemble_vector` term (asm_Strand__assemble_vector) over the evaluations of the generated stripe block terms
+   (ssrc_TableProportions_base_values / _subtotal_values on the EVALUATED ssrc_WeightedCounts terms), on the vectors
+   Model/CubeCounts.v::strand_counts extracts from the flat payload of `tabulate S`.  A display row that shows base
+   element r: categorical strand  w(category r) / w(any valid category);  MR strand  w(selected r) / w(r not missing). *)
+Theorem C03_public_strand_vocabulary :
+  (forall P order spec,
+     strand_rows_spec P order spec =
+     (pvlen P = Some (List.length order) /\
+      forall i, i < List.length order -> (0 <= nth i order 0%Z)%Z -> spec (Z.to_nat (nth i order 0%Z)) (pvcell P i))) /\
+  (forall ms subs order,
+     strand_display_ok ms subs order =
+     Forall (fun z => (- Z.of_nat (List.length subs) <= z < Z.of_nat (nval ms))%Z) order) /\
+  (forall n subs rd st order,
+     sctx_of n subs rd st order =
+     mkSctx n subs rd (st_counts st) (st_bases st) (match st_table_base st with Some x => x | None => NaN end) order).
+Proof. exact (conj (fun _ _ _ => eq_refl) (conj (fun _ _ _ => eq_refl) (fun _ _ _ _ _ => eq_refl))). Qed.
+Print Assumptions C03_public_strand_vocabulary.
+
+Theorem C03_public_Strand_table_proportions_cat :
+  need terms_public_strand_table_proportions
+  (forall S v ms subs rd order st,
+     wf_survey S ->
+     strand_counts (dims_of KCat ms) (strand_payload v KCat ms S) false 0 = Some st ->
+     strand_display_ok ms subs order ->
+     strand_rows_spec (public_strand (sctx_of (nval ms) subs rd st order) "table_proportions") order
+       (fun r x => ratio_spec x (wsum S (fun p => in_cat ms (ans p v) r)) (wsum S (fun p => ok_cat ms (ans p v))))).
+Proof. exact compose_public_Strand_table_proportions_cat. Qed.
+Print Assumptions C03_public_Strand_table_proportions_cat.
+
+Theorem C03_public_Strand_table_proportions_mr :
+  need terms_public_strand_table_proportions
+  (forall S v ms rd order st,
+     wf_survey S ->
+     strand_counts (dims_of KMr ms) (strand_payload v KMr ms S) false 0 = Some st ->
+     strand_display_ok ms [] order ->
+     strand_rows_spec (public_strand (sctx_of (nval ms) [] rd st order) "table_proportions") order
+       (fun r x => ratio_spec x (wsum S (fun p => in_mr ms (ans p v) r)) (wsum S (fun p => ok_mr ms (ans p v) r)))).
+Proof. exact compose_public_Strand_table_proportions_mr. Qed.
+Print Assumptions C03_public_Strand_table_proportions_mr.
+
+Theorem C03_public_strand_terms_available : terms_public_strand_table_proportions = true.
+Proof. exact eq_refl. Qed.
+Print Assumptions C03_public_strand_terms_available.
+
+(* EXAMPLES: variable 0 (categorical, one missing category; a subtotal of the valid elements 0 and 1; display
+   [element 1; the subtotal; element 0]) and variable 1 (multiple response, items reversed) of the survey above *)
+Example C03_public_Strand_table_proportions_cat_example :
+  let S := [ mkResp [ACat 0; AMr [Sel; Oth]; ACat 0] (3 # 2);
+             mkResp [ACat 2; AMr [Sel; Mis]; ACat 1] 2;
+             mkResp [ACat 1; AMr [Sel; Sel]; ACat 0] 5;
+             mkResp [ACat 2; AMr [Oth; Sel]; ACat 1] (1 # 4);
+             mkResp [ACat 0; AMr [Oth; Oth]; ACat 2] 1 ] in
+  let ms := [false; true; false; false] in
+  let subs := [mkSub [0; 1] []] in
+  let order := [1; -1; 0]%Z in
+  match strand_counts (dims_of KCat ms) (strand_payload 0 KCat ms S) false 0 with
+  | Some st =>
+      let P := public_strand (sctx_of (nval ms) subs false st order) "table_proportions" in
+      wf_survey S /\ strand_display_ok ms subs order /\
+      strand_rows_spec P order
+        (fun r x => ratio_spec x (wsum S (fun p => in_cat ms (ans p 0) r)) (wsum S (fun p => ok_cat ms (ans p 0)))) /\
+      pred P = PVec [Fin (9 # 19); Fin 1; Fin (10 # 19)] /\
+      (wsum S (fun p => in_cat ms (ans p 0) 1) / wsum S (fun p => ok_cat ms (ans p 0)) == 9 # 19)%Q
+  | None => False
+  end.
+Proof.
+  cbv zeta.
+  destruct (strand_counts (dims_of KCat [false; true; false; false]) (strand_payload 0 KCat [false; true; false; false] _) false 0)
+    as [st|] eqn:E; [|vm_compute in E; discriminate].
+  assert (W : wf_survey [ mkResp [ACat 0; AMr [Sel; Oth]; ACat 0] (3 # 2); mkResp [ACat 2; AMr [Sel; Mis]; ACat 1] 2;
+                          mkResp [ACat 1; AMr [Sel; Sel]; ACat 0] 5; mkResp [ACat 2; AMr [Oth; Sel]; ACat 1] (1 # 4);
+                          mkResp [ACat 0; AMr [Oth; Oth]; ACat 2] 1 ]) by (repeat constructor; discriminate).
+  assert (O : strand_display_ok [false; true; false; false] [mkSub [0; 1] []] [1; -1; 0]%Z)
+    by (repeat constructor; vm_compute; discriminate).
+  split; [exact W|]. split; [exact O|].
+  split; [exact (need_elim _ _ eq_refl C03_public_Strand_table_proportions_cat _ _ _ _ _ _ _ W E O)|].
+  vm_compute in E. injection E as <-. split; vm_compute; reflexivity.
+Qed.
+
+Example C03_public_Strand_table_proportions_mr_example :
+  let S := [ mkResp [ACat 0; AMr [Sel; Oth]; ACat 0] (3 # 2);
+             mkResp [ACat 2; AMr [Sel; Mis]; ACat 1] 2;
+             mkResp [ACat 1; AMr [Sel; Sel]; ACat 0] 5;
+             mkResp [ACat 2; AMr [Oth; Sel]; ACat 1] (1 # 4);
+             mkResp [ACat 0; AMr [Oth; Oth]; ACat 2] 1 ] in
+  let ms := [false; false] in
+  let order := [1; 0]%Z in
+  match strand_counts (dims_of KMr ms) (strand_payload 1 KMr ms S) false 0 with
+  | Some st =>
+      let P := public_strand (sctx_of (nval ms) [] false st order) "table_proportions" in
+      wf_survey S /\ strand_display_ok ms [] order /\
+      strand_rows_spec P order
+        (fun r x => ratio_spec x (wsum S (fun p => in_mr ms (ans p 1) r)) (wsum S (fun p => ok_mr ms (ans p 1) r))) /\
+      pred P = PVec [Fin (21 # 31); Fin (34 # 39)] /\
+      (wsum S (fun p => in_mr ms (ans p 1) 1) / wsum S (fun p => ok_mr ms (ans p 1) 1) == 21 # 31)%Q
+  | None => False
+  end.
+Proof.
+  cbv zeta.
+  destruct (strand_counts (dims_of KMr [false; false]) (strand_payload 1 KMr [false; false] _) false 0)
+    as [st|] eqn:E; [|vm_compute in E; discriminate].
+  assert (W : wf_survey [ mkResp [ACat 0; AMr [Sel; Oth]; ACat 0] (3 # 2); mkResp [ACat 2; AMr [Sel; Mis]; ACat 1] 2;
+                          mkResp [ACat 1; AMr [Sel; Sel]; ACat 0] 5; mkResp [ACat 2; AMr [Oth; Sel]; ACat 1] (1 # 4);
+                          mkResp [ACat 0; AMr [Oth; Oth]; ACat 2] 1 ]) by (repeat constructor; discriminate).
+  assert (O : strand_display_ok [false; false] [] [1; 0]%Z) by (repeat constructor; vm_compute; discriminate).
+  split; [exact W|]. split; [exact O|].
+  split; [exact (need_elim _ _ eq_refl C03_public_Strand_table_proportions_mr _ _ _ _ _ _ W E O)|].
+  vm_compute in E. injection E as <-. split; vm_compute; reflexivity.
+Qed.
+
+End ComposePublic_C03.
+(*END ComposePublic_C03*)
